@@ -214,7 +214,7 @@ def _apply(schema, mode: str, kw: dict, st: dict):
     return getattr(schema, mode)(**kw)
 
 
-def build_schema(case: dict, cat: dict, base_url: str | None = None):
+def build_schema(case: dict, cat: dict, base_url: str | None = None, generation=None):
     """The schema object the given front door produces for the element."""
     st = _setup(cat)
     sch = st["schemathesis"]
@@ -225,6 +225,8 @@ def build_schema(case: dict, cat: dict, base_url: str | None = None):
     schema = sch.openapi.from_dict(st["raws"][case.get("dialect", "oas30")])
     if base_url:
         schema = schema.configure(base_url=base_url)
+    if generation is not None:
+        schema = schema.configure(generation=generation)
     if case["door"] == "py":
         for mode, f in calls:
             schema = _apply(schema, mode, py_call(cat["filters"][f - 1], rx), st)
@@ -401,6 +403,12 @@ def signatures(case: dict, obs: dict, cat: dict) -> dict[str, tuple[str, int, st
                     1 for l in cat["links"] if it[l["src"] - 1] and it[l["tgt"] - 1]):
                 continue
             sig = "C07:%s:%s:%s" % (case["door"], site, kind)
+        elif site in ("engine", "cli-run", "pytest", "lazy-pytest"):
+            # the selection itself is right (iterator agrees with the spec) but this site diverges: a defect of the site, whatever
+            # the filter kind; what matters is whether a sibling operation of the same path item is selected
+            path = cat["ops"][o - 1]["path"]
+            sibling = any(q != o - 1 and op["path"] == path and it[q] == 1 for q, op in enumerate(cat["ops"]))
+            sig = "C07:%s:%s:%s:%s" % (case["door"], site, kind, "sibling-on-same-path-selected" if sibling else "no-selected-sibling")
         else:
             sig = "C07:%s:%s:%s:%s" % (case["door"], site, kind, _responsible(case, cat, o, "leak" if kind.startswith("leak") else kind))
         out.setdefault(sig, (site, o, kind))
@@ -693,19 +701,22 @@ def log_vector(cat: dict, log) -> tuple[list[int], int]:
 
 
 def run_engine(case: dict, cat: dict) -> dict:
-    """The real engine (examples, coverage, fuzzing, stateful) against the loopback server; the server log is the observation."""
+    """The real engine (examples, coverage, fuzzing, stateful; positive AND negative generation, so that the coverage phase also
+    probes "unspecified HTTP methods") against the loopback server; the server log is the observation."""
     import hypothesis
     from schemathesis.engine import from_schema
     from schemathesis.engine.config import EngineConfig, ExecutionConfig, NetworkConfig
+    from schemathesis.generation import GenerationConfig, GenerationMode
 
     from .server import LoopbackServer
 
     _setup(cat)
     with LoopbackServer(_behaviour(cat, case.get("dialect", "oas30"))) as server:
-        schema = build_schema(case, cat, base_url=server.base_url)
+        generation = GenerationConfig(modes=[GenerationMode.POSITIVE, GenerationMode.NEGATIVE])
+        schema = build_schema(case, cat, base_url=server.base_url, generation=generation)
         settings = hypothesis.settings(max_examples=4, deadline=None, database=None, derandomize=True, stateful_step_count=5,
                                        suppress_health_check=list(hypothesis.HealthCheck))
-        config = EngineConfig(execution=ExecutionConfig(hypothesis_settings=settings, workers_num=1, seed=1),
+        config = EngineConfig(execution=ExecutionConfig(hypothesis_settings=settings, workers_num=1, seed=1, generation=generation),
                               network=NetworkConfig(timeout=10))
         fatal = ""
         via_links = 0
@@ -731,7 +742,7 @@ def run_cli(case: dict, cat: dict) -> dict:
     launcher = ("import sys; sys.path.insert(0, %r); from harness.compat import enable_links; enable_links(); "
                 "from schemathesis.cli import schemathesis; schemathesis()" % common.ROOT)
     with LoopbackServer(_behaviour(cat, case.get("dialect", "oas30"))) as server:
-        proc = subprocess.run([PY, "-c", launcher, "run", server.base_url + "/openapi.json", "-n", "3", "--seed", "1", "--no-color",
+        proc = subprocess.run([PY, "-c", launcher, "run", server.base_url + "/openapi.json", "-n", "3", "--seed", "1", "--no-color", "-m", "all",
                                "--workers", "1"] + argv, stdout=subprocess.PIPE, stderr=subprocess.STDOUT, text=True, timeout=600,
                               env=dict(os.environ, COLUMNS="200"))
         vec, other = log_vector(cat, server.snapshot())
@@ -994,8 +1005,9 @@ def run(ctx: Ctx) -> Outcome:
         "installed Hypothesis; without it no link-derived request exists and the 'excluded link target' clause would be vacuous",
         "the lazy-fixture door is observed in-process through pytest.lazy.get_schema with a stub request object; a stratified sample is "
         "run under a real pytest process and must give the same operations",
-        "requests are mapped to operations by method and path template; requests to anything that is not an operation of the document "
-        "(unexpected-method probes, the schema URL) are not judged",
+        "requests are mapped to operations by method and path template; engine and CLI runs use positive and negative generation in all "
+        "phases; a received (method, path) must be a selected operation or a method the document does not define for that path at all "
+        "(unspecified-method probes, the schema URL) - the latter are not judged",
         "an upper-case method key in a path item is not an operation of the document (OpenAPI field names are case-sensitive)",
         "lazy fixture with include filters on both the fixture schema and the lazy schema: union and successive selection are both "
         "accepted readings; operations where they differ are not judged",
